@@ -588,6 +588,10 @@ func commitFinalServerHello(
 	if serverHello.CipherSuiteID == nil || *serverHello.CipherSuiteID != cipherSuiteID {
 		return newSRTPError(dtlserrors.ErrInvalidServerHello, alert.InternalError)
 	}
+	// The client names the session by the id it reads in the message.
+	if len(state.SessionID) != 0 || len(serverHello.SessionID) != 0 {
+		state.SessionID = bytes.Clone(serverHello.SessionID)
+	}
 	state.NegotiatedProtocol = ""
 	for _, ext := range serverHello.Extensions {
 		if selection, ok := ext.(*extension.ALPNSelection); ok {
